@@ -94,8 +94,8 @@ def class_map(rng: random.Random) -> dict[str, str]:
 # ---------------------------------------------------------------------------
 # TLC: model checking + graph export
 # ---------------------------------------------------------------------------
-def model_check(tier: str) -> dict:
-    cfg = pick_cfg("BreakerMC_quick", tier)
+def model_check(tier: str, light: bool = False) -> dict:
+    cfg = pick_cfg("BreakerMC_light" if light and tier == "quick" else "BreakerMC_quick", tier)
     res = run_tlc("BreakerMC.tla", cfg, tag="brk-mc", timeout=3000)
     if not res.ok:
         raise Machinery(f"spec-level counterexample in BreakerMC ({res.violated}); the model is "
@@ -104,8 +104,8 @@ def model_check(tier: str) -> dict:
             "mc_wall_s": round(res.wall_s, 1), "mc_cfg": cfg}
 
 
-def export_graph(tier: str):
-    cfg = pick_cfg("BreakerMC_export", tier)
+def export_graph(tier: str, light: bool = False):
+    cfg = pick_cfg("BreakerMC_export_light" if light and tier == "quick" else "BreakerMC_export", tier)
     res = run_tlc("BreakerMC.tla", cfg, tag="brk-exp", timeout=3000)
     if not res.ok:
         raise Machinery(f"BreakerMC export run violated {res.violated}")
@@ -233,12 +233,13 @@ def canary(trace: dict) -> None:
 # ---------------------------------------------------------------------------
 # the check
 # ---------------------------------------------------------------------------
-def check(prop: str, tier: str) -> Report:
+def check(prop: str, tier: str, light: bool = False) -> Report:
+    """light: smaller exhaustive bound (used by C07, which adds policy-level and concurrent parts)"""
     assert prop in ("C06", "C07")
     rep = Report(prop=prop, tier=tier, level="model_checking")
     rng = random.Random(seed() * 7919 + 17)
-    mc = model_check(tier)
-    configs, edges, exp = export_graph(tier)
+    mc = model_check(tier, light)
+    configs, edges, exp = export_graph(tier, light)
     deep = simulate_graph(tier, configs)
     n_exh = len(edges)
     edges = edges + deep
